@@ -326,6 +326,26 @@ def run(chk):
                     r1d.require(False, f"{f.key}|module-global:{s.value.func.value.id}", f.where(s), f"{f.qualname} mutates the module-level container `{s.value.func.value.id}`")
         r1d.inst(f"{m.name}|module-containers[{len(muts)}]")
 
+    # ------------------------------------------------------------------ R03.1e estimator state carried across fits
+    r1e = chk.rule("R03.1e", "history independence of kept estimators: no warm_start / partial_fit — an estimator object stored on the model must start every fit from scratch", 2)
+    n_est = 0
+    for f in reach:
+        for c in calls_in(f.node):
+            ws = kwarg(c, "warm_start")
+            short = unparse(c.func).split(".")[-1]
+            if short in RNG_CONSUMERS or short in ("StandardScaler", "RobustScaler", "PCA", "KernelPCA", "LinearRegression", "Ridge"):
+                n_est += 1
+                r1e.inst(f"{f.key}|estimator:{short}")
+            if ws is not None:
+                ok = isinstance(ws, ast.Constant) and ws.value is False
+                r1e.require(ok, f"{f.key}|warm_start:{short}", f.where(c),
+                            f"{f.qualname}: `{short}(..., warm_start={unparse(ws)})` — with warm start the estimator kept on the model begins the next fit() from the previous fit's solution, so the same data, "
+                            f"settings and seed give a different model depending on what the object was fitted on before", sample={"function": f.qualname, "estimator": short, "warm_start": unparse(ws)})
+            if isinstance(c.func, ast.Attribute) and c.func.attr == "partial_fit":
+                r1e.require(False, f"{f.key}|partial_fit", f.where(c), f"{f.qualname}: partial_fit accumulates state across calls; fits are no longer a function of (data, settings, seed)")
+    if n_est < 2:
+        raise AnalysisError("estimator inventory found fewer than 2 estimator constructions")
+
     # ------------------------------------------------------------------ R03.2 pins
     bk = chk.repo.func("opendsm.common.clustering.bisect_k_means", "BisectingKMeans.fit")
     pin = [s for s in walk_no_nested(bk.node) if isinstance(s, ast.Assign) and unparse(s.targets[0]) == "self._n_threads"]
